@@ -1,5 +1,5 @@
 """U-TML-V: Verus contracts on src/toml.rs for ANY history of calls: `Output::{new, ensure_one_use, output_value}`, the three
-methods of `impl crate::Output for Output<W>`, and `toml::input_matches`.
+methods of `impl crate::Output for Output<W>`, `toml::transcode` and `toml::input_matches`.
 
 State view of an output: (used, wa_log(w), w_misc(w)) where `wa_log` is the list of buffers handed to `write_all` and
 `w_misc` counts every other write-side call (`write`).  Proved on the verbatim code:
@@ -11,6 +11,9 @@ State view of an output: (used, wa_log(w), w_misc(w)) where `wa_log` is the list
   * flush: no write_all, no write, mark unchanged;
   * THEOREM lemma_at_most_one_document: along ANY sequence of states linked by step_ok / flush from `new(w)`, the writer
     has received nothing or exactly one buffer, and that buffer is one complete TOML document (C08, unbounded history);
+  * transcode: the TOML deserializer offered to the output is built over EVERY byte of the input (`handle_bytes`), after the
+    UTF-8 check of exactly those bytes; (T6'') `input.try_into()` is redirected to the stand-in `input::handle_into_cow`
+    whose contract is the one proved for `Cow::try_from(Handle)` in U-CAP-V;
   * input_matches: slice input => Ok(utf8 && toml parses); reader input => the prefix is asked for with the 2 MiB cutoff,
     a prefix at or over the cutoff => Ok(false), otherwise the same verdict on the prefix; a reader error => that error.
 
@@ -53,6 +56,10 @@ pub trait ExRead {
     fn read(&mut self, buf: &mut [u8]) -> (r: std::io::Result<usize>);
 }
 pub uninterp spec fn utf8_ok(b: Seq<u8>) -> bool;
+// `&c` with c: Cow<[u8]> coerced to &[u8] (ASSUMED: Cow::deref is a pure function of the Cow)
+pub uninterp spec fn cow_ref<'a, 'b, B: ?Sized + ToOwned>(c: &'b std::borrow::Cow<'a, B>) -> &'b B;
+pub assume_specification<'a, 'b, B: ?Sized + ToOwned> [<std::borrow::Cow<'a, B> as std::ops::Deref>::deref] (c: &'b std::borrow::Cow<'a, B>) -> (r: &'b B)
+    ensures r == cow_ref(c);
 pub assume_specification [std::str::from_utf8] (v: &[u8]) -> (r: std::result::Result<&str, std::str::Utf8Error>)
     ensures (r is Ok) == utf8_ok(v@), r matches Ok(s) ==> s.spec_bytes() == v@;
 // ASSUMED arithmetic fact about a std function: the one call in toml::input_matches is 1024^2
@@ -110,9 +117,11 @@ pub mod toml {
     }
     #[verifier::external_body] pub struct Deserializer<'a> { _d: std::marker::PhantomData<&'a str> }
     pub uninterp spec fn toml_ok(text: Seq<u8>) -> bool;
+    // the text a TOML deserializer was built over
+    pub uninterp spec fn td_src<'a>(d: &Deserializer<'a>) -> Seq<u8>;
     impl<'a> Deserializer<'a> {
         #[verifier::external_body]
-        pub fn new(s: &'a str) -> (d: Self) ensures crate::serde::de::de_accepts(&d) == toml_ok(s.spec_bytes()), { unimplemented!() }
+        pub fn new(s: &'a str) -> (d: Self) ensures crate::serde::de::de_accepts(&d) == toml_ok(s.spec_bytes()), td_src(&d) == s.spec_bytes(), { unimplemented!() }
     }
     impl<'a> crate::serde::de::Deserializer<'a> for Deserializer<'a> { type Error = de::Error; }
 }
@@ -121,6 +130,7 @@ pub mod toml {
 #[verifier::external_body]
 pub struct Error { _e: () }
 pub type Result<T, E = Error> = std::result::Result<T, E>;
+impl From<std::str::Utf8Error> for Error { #[verifier::external_body] fn from(e: std::str::Utf8Error) -> Self { unimplemented!() } }
 impl From<std::io::Error> for Error { #[verifier::external_body] fn from(e: std::io::Error) -> Self { unimplemented!() } }
 impl From<toml::ser::Error> for Error { #[verifier::external_body] fn from(e: toml::ser::Error) -> Self { unimplemented!() } }
 impl<E: de::Error + Send + Sync + 'static> From<E> for Error { #[verifier::external_body] fn from(e: E) -> Self { unimplemented!() } }
@@ -142,6 +152,15 @@ pub mod input {
     #[verifier::external_body]
     #[verifier::reject_recursive_types(R)]
     pub struct CaptureReader<R> { _r: std::marker::PhantomData<R> }
+    #[verifier::external_body]
+    pub struct Handle<'i> { _h: std::marker::PhantomData<&'i [u8]> }
+    // every byte of the input behind a handle (for a reader: everything it delivers up to its end)
+    pub uninterp spec fn handle_bytes<'i>(h: Handle<'i>) -> Seq<u8>;
+    // stand-in for `impl TryFrom<Handle> for Cow<[u8]>` (its contract is proved in U-CAP-V): the whole input, or the reader's error
+    #[verifier::external_body]
+    pub fn handle_into_cow<'i>(h: Handle<'i>) -> (r: std::io::Result<std::borrow::Cow<'i, [u8]>>)
+        ensures r matches Ok(c) ==> crate::cow_ref(&c)@ == handle_bytes(h),
+    { unimplemented!() }
 '''
 
 REF_TAIL = r'''
@@ -256,6 +275,11 @@ ITEMS = [
     dict(src=SRC, kind='fn', name='transcode_value', within_impl=OT, contract=dict(ret='r', spec=TF_SPEC, rewrites=[EXT])),
     dict(src=SRC, kind='fn', name='flush', within_impl=OT, contract=dict(ret='r', spec=FLUSH_SPEC)),
     dict(raw='}'),
+    # toml::transcode: the deserializer handed to the output is built over EVERY byte of the input, and it is offered exactly once
+    dict(src=SRC, kind='fn', name='transcode',
+         contract=dict(ret='r', spec='ensures true,', prologue='let ghost h0 = input;',
+                       rewrites=[EXT, dict(find=r'input\s*\.\s*try_into\s*\(\s*\)', to='input::handle_into_cow(input)', required=True)],   # (T6'') `.try_into()` -> the stand-in conversion
+                       inserts=[dict(before=r'output\s*\.\s*transcode_from\s*\(', text='proof { assert(toml::td_src(&de) == input::handle_bytes(h0)); }')])),
     dict(src=SRC, kind='fn', name='input_matches', contract=dict(ret='r', spec=IM_SPEC, rewrites=[EXT, CUTOFF])),
     dict(raw='}'),
 ]
